@@ -62,11 +62,12 @@ type world struct {
 	byPath map[string]*img
 	fc     faultCfg
 
-	mu       sync.Mutex
-	outcome  map[string]string // href -> "ok" | failure kind, for the current call
-	doneOrd  []string
-	inflight int
-	quiet    atomic.Bool
+	mu        sync.Mutex
+	outcome   map[string]string // href -> "ok" | failure kind, for the current call
+	doneOrd   []string
+	inflight  int
+	quiet     atomic.Bool
+	bigImages bool
 }
 
 func (w *world) fault(kind string) {
@@ -295,6 +296,15 @@ func (w *world) genImages(tp *tape.Tape, n int) []*img {
 		im.Content = append(append([]byte{}, c...), []byte(fmt.Sprintf("#%d", uniq))...)
 		if tp.Chance(1, 6, "img.empty") {
 			im.Content = []byte{}
+		} else if w.bigImages && tp.Chance(1, 3, "img.big") {
+			// a large image (above 1 MiB): buffer reuse, chunked bodies and size limits only
+			// show with sizes like these; the filler differs per image
+			big := make([]byte, 1<<20+4096*(1+uniq%7))
+			for i := range big {
+				big[i] = byte('a' + (i+uniq)%23)
+			}
+			im.Content = append(im.Content, big...)
+			w.res.Probe("large_image")
 		}
 		if _, dup := w.imgs[im.Href]; dup {
 			continue
@@ -533,6 +543,10 @@ func runInBubble(cfg harness.Config, idx int, tp *tape.Tape, dir string, res *ha
 	}
 	sizes := []int{0, 1, 2, 3, 3, 2, 5, 8, 17, 24, 40}
 	k := sizes[tp.Draw(len(sizes), "cfg.k")]
+	w.bigImages = tp.Chance(1, 5, "cfg.bigimages")
+	if w.bigImages && k > 8 {
+		k = 8
+	}
 	pool := w.genImages(tp, k)
 	ncalls := 1 + tp.Weighted([]int{5, 3, 1}, "cfg.calls")
 	cacheOn := tp.Chance(1, 2, "cfg.cache")
